@@ -18,10 +18,16 @@ CFG = dict(
          "headers / parts) and sampled 2-3 field combinations, recorded as groups of <= 30 edits of a base call (a "
          "sample also as flat cases); alterations of linear proofs and of entry inclusion proofs (Leaf, Width, terms, "
          "digest, Eh); the forged sessions of coq/Proofs/Refuted.v on the real verifiers; the real pkg/client code "
-         "(VerifiedSet / VerifiedGet / VerifiedTxByID) driven offline against a real pkg/database.DB through a mocked "
-         "ServiceClient, honestly (must succeed, trusted state must stay a state of the database) and with ~18 "
-         "tamperings of the response (entry value / tx id / metadata, inclusion proof, proof headers, returned Tx "
-         "header and entries), with the trusted state before and after the proven transaction (buckets clientflow/* "
+         "(VerifiedGet, VerifiedGetAt, VerifiedGet of a reference, VerifiedTxByID, VerifiedSet, VerifiedSetReference, "
+         "VerifiedZAdd) driven offline through a mocked ServiceClient that answers from real pkg/database.DB instances and "
+         "signs states like pkg/server: the genuine database A (the client's locally stored state is always a state of A, "
+         "set older than / equal to / newer than the proven transaction) and three self-consistent FORKS (same length "
+         "with different content, longer, shorter); per operation and direction: honest answer (must succeed and leave "
+         "a state of A), answer from each fork (must fail, stored state untouched), ~45 single-field alterations of the "
+         "honest answer (entry value / key / tx id / metadata, every header field of source and target, swapped "
+         "headers, TargetBlTxAlh, each proof term list, linear proof, returned Tx header and entries, state signature "
+         "absent / flipped; must fail with the state untouched when every verification depends on the field, else at "
+         "least return genuine data and keep a state of A) (buckets clientflow/* "
          "count calls). Non-trivial: every case "
          "(each carries at least one hash computation); distinct by full case content; buckets dual*/mut1, mutN, flat "
          "count altered calls, dualgroup* count groups. Falsifier: a Go verifier accepting, against a GENUINE target "
